@@ -784,3 +784,289 @@ def c04_frozen_migration(name, K):
         out.append(struct(oid + '.before-integration', early, 'the guard precedes every integration call', fn))
         return out
     return go()
+
+
+# ---------------------------------------------------------------- C06: linear deposition onto the two bracketing grid points
+def c06_admixture_intermediates(n):
+    """_admixture_intermediates(phi, ad_z, zz), scalarised (one entry of phi / ad_z; zz a strictly increasing grid of n symbolic points;
+    numpy.searchsorted by its documented axiom).  Postconditions, on every path:
+       lower == upper - 1,  1 <= upper <= n-1
+       frac_lower + frac_upper == 1;   frac_lower*zz[lower] + frac_upper*zz[upper] == ad_z     (the deposit carries the mixture frequency)
+       w[lower]*frac_lower*norm + w[upper]*frac_upper*norm == phi   whenever the normalisation is defined, which it is for zz[0] <= ad_z <= zz[-1]
+                                                                     (trapezoid mass of the deposit = the density; w = trapezoid weights)
+       zz[lower] <= ad_z <= zz[upper]  ==>  0 <= frac_lower, frac_upper <= 1"""
+    oid = 'C06/PhiManip.py:_admixture_intermediates/n%d' % n
+    fn = 'dadi/PhiManip.py::_admixture_intermediates'
+
+    @guarded(oid, fn)
+    def go():
+        ex = Executor(max_paths=200)
+        f = ex.func('dadi/PhiManip.py', '_admixture_intermediates')
+        zs = reals('z', n)
+        phi, ad = z3.Reals('phi ad_z')
+        hy = [zs[i] < zs[i + 1] for i in range(n - 1)]
+        paths = ex.run(f, [phi, ad, VList(zs, 'ndarray')], base_pc=hy)
+        out = []
+        w = [(zs[1] - zs[0]) / 2] + [(zs[j + 1] - zs[j - 1]) / 2 for j in range(1, n - 1)] + [(zs[n - 1] - zs[n - 2]) / 2]
+        for k, p in enumerate(paths):
+            if p.outcome != 'return':
+                out.append(struct('%s.path%d' % (oid, k), False, 'raises %s' % p.exc, fn))
+                continue
+            lo, up, fl, fu, norm = p.value
+            ok = isinstance(lo, int) and isinstance(up, int) and lo == up - 1 and 1 <= up <= n - 1
+            out.append(struct('%s.path%d.indices' % (oid, k), ok, 'lower=%r upper=%r' % (lo, up), fn))
+            if not ok:
+                continue
+            o = '%s.path%d' % (oid, k)
+            out.append(prove_eq(o + '.fractions-sum-to-one', p.pc, to_real(fl) + to_real(fu), z3.RealVal(1), func=fn))
+            out.append(prove_eq(o + '.mixture-frequency', p.pc, to_real(fl) * zs[lo] + to_real(fu) * zs[up], ad, func=fn))
+            den = w[lo] * to_real(fl) + w[up] * to_real(fu)       # half the normalisation denominator
+            out.append(prove(o + '.normalisation-defined-inside-grid', p.pc + [ad >= zs[0], ad <= zs[n - 1]], den > 0, func=fn, timeout_ms=30000))
+            out.append(prove_eq(o + '.mass', p.pc + [den != 0], w[lo] * to_real(fl) * to_real(norm) + w[up] * to_real(fu) * to_real(norm), phi, func=fn, timeout_ms=30000,
+                                finding_key='C06/_admixture_intermediates/mass'))
+            out.append(prove(o + '.fractions-in-unit-interval', p.pc + [zs[lo] <= ad, ad <= zs[up]], z3.And(to_real(fl) >= 0, to_real(fl) <= 1, to_real(fu) >= 0, to_real(fu) <= 1), func=fn))
+            # bracketing: inside the grid the two nodes bracket the mixture frequency
+            out.append(prove(o + '.bracket', p.pc + [ad >= zs[0], ad <= zs[n - 1]], z3.And(zs[lo] <= ad, ad <= zs[up]), func=fn))
+        out.append(struct(oid + '.paths', len(paths) == n + 1, '%d paths (one per searchsorted outcome)' % len(paths), fn, undecided=len(paths) != n + 1))
+        return out
+    return go()
+
+
+# ---------------------------------------------------------------- C08: projection window and weights
+def c08_window():
+    """_project_one_axis: [least, most] is exactly the support of the hypergeometric weight,
+         least <= k <= most  <=>  0 <= k <= n  and  k <= hits  and  n-k <= proj_from-hits,
+    and both the target slice and the weight slice are slice(least, most+1)."""
+    oid = 'C08/Spectrum_mod.py:Spectrum._project_one_axis/window'
+    fn = 'dadi/Spectrum_mod.py::Spectrum._project_one_axis'
+
+    @guarded(oid, fn)
+    def go():
+        from vf.pyvc import Env, PathCtx
+        mod = ModInfo.load('dadi/Spectrum_mod.py')
+        node = mod.funcs['Spectrum._project_one_axis']
+        asg = None
+        for st in ast.walk(node):
+            if isinstance(st, ast.Assign) and isinstance(st.targets[0], ast.Tuple) and [getattr(e, 'id', None) for e in st.targets[0].elts] == ['least', 'most']:
+                asg = st
+        if asg is None:
+            return [struct(oid, False, 'no assignment to (least, most) found', fn, undecided=True)]
+        ex = Executor()
+        ex.ctx = PathCtx([], [], ex)
+        env = Env(None, mod)
+        n, fr, hits, k = z3.Ints('n proj_from hits k')
+        env.vars.update(n=n, proj_from=fr, hits=hits)
+        ex.assign(asg.targets[0], ex.eval(asg.value, env, mod), env, mod)
+        least, most = env.vars['least'], env.vars['most']
+        from vf.pyvc import to_z3
+        lz, mz = to_z3(least), to_z3(most)
+        if not z3.is_int(lz):
+            lz, mz = z3.ToInt(lz), z3.ToInt(mz)
+        hy = [hits >= 0, hits <= fr, n >= 0, n <= fr]
+        # minmax() builds Real-valued If's: relate through reals
+        support = z3.And(k >= 0, k <= n, k <= hits, n - k <= fr - hits)
+        out = [prove(oid + '.iff', hy, z3.And(to_real(least) <= z3.ToReal(k), z3.ToReal(k) <= to_real(most)) == support, func=fn, timeout_ms=20000,
+                     finding_key='C08/_project_one_axis/window'),
+               prove(oid + '.nonempty', hy, to_real(least) <= to_real(most), func=fn, timeout_ms=20000)]
+        # slices
+        src = ast.unparse(node)
+        ok = src.count('slice(least, most + 1)') >= 2 and 'to_slice[axis] = slice(least, most + 1)' in src and 'proj_slice[axis] = slice(least, most + 1)' in src
+        out.append(struct(oid + '.slices', ok, 'target slice and weight slice are both slice(least, most+1)', fn, finding_key='C08/_project_one_axis/slices'))
+        ok = 'from_slice[axis] = slice(hits, hits + 1)' in src and '_cached_projection(n, proj_from, hits)' in src
+        out.append(struct(oid + '.source-slice', ok, 'source slice is hits:hits+1 and the weights are _cached_projection(n, proj_from, hits)', fn))
+        return out
+    return go()
+
+
+def c08_weights():
+    """_cached_projection(proj_to, proj_from, hits)[k] = exp(lnC(to,k) + lnC(from-to, hits-k) - lnC(from,hits)),  lnC(N,k) := gammaln(N+1)-gammaln(k+1)-gammaln(N-k+1)
+    i.e. C(to,k) C(from-to,hits-k)/C(from,hits) under the gammaln axiom; from < to short-circuits to zeros(to+1)."""
+    oid = 'C08/Numerics.py:_cached_projection/weights'
+    fn = 'dadi/Numerics.py::_cached_projection'
+
+    @guarded(oid, fn)
+    def go():
+        ex = Executor(policy=lambda fr_: 'inline' if fr_.qualname == '_lncomb' else 'abstract')
+        f = ex.func('dadi/Numerics.py', '_cached_projection')
+        to, fr, hits, k = z3.Ints('proj_to proj_from hits k')
+        ex.module_overrides[('dadi.Numerics', '_projection_cache')] = VDict()
+        ex.module_overrides[('numpy', 'arange')] = PyFn(lambda n_: k, 'numpy.arange[k]')     # scalarisation: an arbitrary entry k of arange(proj_to+1)
+        def thunk(e):
+            e.module_overrides[('dadi.Numerics', '_projection_cache')] = VDict()      # an empty cache on every path (memo miss)
+            return e.apply(f.node, None, f.mod, [to, fr, hits], {}, '_cached_projection')
+        paths = ex.explore(thunk, base_pc=[to >= 0, fr >= 0, hits >= 0, hits <= fr, k >= 0, k <= to])
+        out = []
+        G = uf('gammaln')
+        lnC = lambda N, kk: G(to_real(N) + 1) - G(to_real(kk) + 1) - G(to_real(N) - to_real(kk) + 1)
+        saw = set()
+        for i, p in enumerate(paths):
+            if p.outcome != 'return':
+                out.append(struct('%s.path%d' % (oid, i), False, 'raises %s' % p.exc, fn))
+                continue
+            v = p.value
+            from vf import smt
+            short = smt.check(p.pc, fr < to, timeout_ms=3000, use_cli=False)['status'] == 'proved'
+            if short:
+                saw.add('short')
+                ok = isinstance(v, Tm) and 'zeros' in v.op or isinstance(v, VList)
+                out.append(struct('%s.path%d.upward-is-zero' % (oid, i), bool(ok), 'proj_from < proj_to returns zeros(proj_to+1): %s' % vrepr(v)[:80], fn))
+            else:
+                saw.add('weights')
+                want = uf('exp')(lnC(to, k) + lnC(fr - to, hits - k) - lnC(fr, hits))
+                out.append(prove_eq('%s.path%d.value' % (oid, i), p.pc, v, want, func=fn, timeout_ms=20000, finding_key='C08/_cached_projection/value'))
+        out.append(struct(oid + '.paths', saw == {'short', 'weights'}, 'paths seen: %s' % sorted(saw), fn, undecided=saw != {'short', 'weights'}))
+        return out
+    return go()
+
+
+def c08_project_guards():
+    """Spectrum.project: wrong length / any upward size raise ValueError; folded spectra are unfolded, projected, folded; labels and extrap_x copied."""
+    oid = 'C08/Spectrum_mod.py:Spectrum.project'
+    fn = 'dadi/Spectrum_mod.py::Spectrum.project'
+
+    @guarded(oid, fn)
+    def go():
+        out = []
+        ex = Executor()
+        f = ex.func('dadi/Spectrum_mod.py', 'Spectrum.project')
+
+        def mk(folded):
+            me = Tm('self')
+            ss = VList([z3.Int('N0'), z3.Int('N1')], 'ndarray')
+            me.attrs.update(Npop=2, sample_sizes=ss, folded=folded, pop_ids=Tm('ids'), extrap_x=Tm('ex'))
+            return me, ss
+        me, ss = mk(False)
+        paths = ex.run(f, [me, VList([z3.Int('n0')])])
+        out.append(struct(oid + '.wrong-length', len(paths) >= 1 and all(p.outcome == 'raise' and p.exc.kind == 'ValueError' for p in paths), 'ns of another length raises ValueError', fn))
+        for folded in (False, True):
+            me, ss = mk(folded)
+            ns = VList([z3.Int('n0'), z3.Int('n1')])
+            paths = ex.run(f, [me, ns], base_pc=[ss.items[0] >= 1, ss.items[1] >= 1, ns.items[0] >= 0, ns.items[1] >= 0])
+            up = z3.Or(ns.items[0] > ss.items[0], ns.items[1] > ss.items[1])
+            for i, p in enumerate(paths):
+                o = '%s.%s.path%d' % (oid, 'folded' if folded else 'unfolded', i)
+                if p.outcome == 'raise':
+                    out.append(prove(o + '.raises-only-upward', p.pc, up, func=fn))
+                    out.append(struct(o + '.kind', p.exc.kind == 'ValueError', p.exc.kind, fn))
+                else:
+                    out.append(prove(o + '.returns-only-downward', p.pc, z3.Not(up), func=fn, finding_key='C08/project/upward-accepted'))
+                    v = p.value
+                    s = vrepr(v)
+                    okf = (s.startswith('call:attr:fold(') and 'attr:unfold(self)' in s) if folded else ('attr:copy(self)' in s and 'fold' not in s)
+                    out.append(struct(o + '.fold-wrapping', bool(okf), ('fold(project(unfold(self)))' if folded else 'project(copy(self))') + ': ' + s[:120], fn))
+            out.append(struct('%s.%s.paths' % (oid, 'folded' if folded else 'unfolded'), any(p.outcome == 'raise' for p in paths) and any(p.outcome == 'return' for p in paths), '%d paths' % len(paths), fn))
+        return out
+    return go()
+
+
+# ---------------------------------------------------------------- C11: likelihood wiring
+def _spectra(dfold, mfold):
+    data, model = Tm('data'), Tm('model')
+    for t, fl in ((data, dfold), (model, mfold)):
+        t.attrs.update(folded=fl, folded_ancestral=False, folded_major=False)
+    return data, model
+
+
+def c11_ll_per_bin():
+    """ll_per_bin(model, data) = -M.data + data.data * M.log() - gammaln(data + 1)  with  M = model.fold() iff data.folded and not model.folded, else model.
+    The masked log is taken of the model *object* (so the model's own mask and non-positive entries are masked in the result) and gammaln of the data *object*
+    (so the data's mask propagates): the result is masked exactly where model or data is masked or model <= 0 (numpy.ma semantics, assumed)."""
+    oid = 'C11/Inference.py:ll_per_bin'
+    fn = 'dadi/Inference.py::ll_per_bin'
+
+    @guarded(oid, fn)
+    def go():
+        out = []
+        for dfold, mfold in itertools.product([False, True], repeat=2):
+            ex = Executor(max_paths=400)
+            f = ex.func('dadi/Inference.py', 'll_per_bin')
+            data, model = _spectra(dfold, mfold)
+            paths = ex.run(f, [model, data])
+            tag = 'data%s.model%s' % ('F' if dfold else 'U', 'F' if mfold else 'U')
+            rets = [p for p in paths if p.outcome == 'return']
+            if len(rets) != len(paths) or not rets:
+                out.append(struct('%s.%s' % (oid, tag), False, 'a path raises: %r' % [p for p in paths if p.outcome != 'return'][:1], fn))
+                continue
+            M = 'call:attr:fold(model)' if (dfold and not mfold) else 'model'
+            want = {'attr:data(%s)' % M: -1, 'op:Mult(attr:data(data), call:attr:log(%s))' % M: 1, None: -1}
+            bad = None
+            for p in rets:
+                lf = linear_form(p.value)
+                got = {k: z3.simplify(c) for k, (a, c) in lf.items()}
+                gl = [k for k in got if 'gammaln' in k]
+                ok = len(got) == 3 and len(gl) == 1 and 'op:Add(data, 1)' in gl[0] and all(str(got.get(k)) == str(z3.RealVal(v)) for k, v in want.items() if k) and str(got[gl[0]]) == '-1'
+                if not ok:
+                    bad = {k: str(v) for k, v in got.items()}
+                    break
+            out.append(struct('%s.%s' % (oid, tag), bad is None, ('%d paths return -M.data + data.data*M.log() - gammaln(data+1) with M=%s' % (len(rets), M)) if bad is None else 'result is %s' % bad, fn,
+                              finding_key='C11/ll_per_bin/formula'))
+        return out
+    return go()
+
+
+def c11_ll_wiring():
+    """ll = ll_per_bin(model, data).sum();  ll_multinom = ll_per_bin(optimal_sfs_scaling(model, data)*model, data).sum();
+    optimal_sfs_scaling = data'.sum()/model'.sum() over the intersected masks (model folded against folded data first)."""
+    out = []
+    ex = Executor(policy=lambda fr: 'inline' if fr.qualname in ('ll', 'll_multinom', 'll_multinom_per_bin') else 'abstract')
+    data, model = _spectra(False, False)
+    fn = 'dadi/Inference.py::ll'
+    try:
+        p = ex.run(ex.func('dadi/Inference.py', 'll'), [model, data])
+        ok = len(p) == 1 and p[0].outcome == 'return' and vrepr(p[0].value).startswith('call:attr:sum(call:dadi.Inference.ll_per_bin(model, data')
+        out.append(struct('C11/Inference.py:ll/wiring', ok, 'll = ll_per_bin(model, data).sum(): %s' % (vrepr(p[0].value)[:100] if p else p), fn))
+        p = ex.run(ex.func('dadi/Inference.py', 'll_multinom'), [model, data])
+        s = vrepr(p[0].value) if p and p[0].outcome == 'return' else repr(p)
+        ok = s.startswith('call:attr:sum(call:dadi.Inference.ll_per_bin(op:Mult(call:dadi.Inference.optimal_sfs_scaling(model, data), model), data')
+        out.append(struct('C11/Inference.py:ll_multinom/wiring', ok, 'll_multinom = ll_per_bin(theta_opt*model, data).sum(): %s' % s[:140], 'dadi/Inference.py::ll_multinom'))
+        for dfold, mfold in itertools.product([False, True], repeat=2):
+            data, model = _spectra(dfold, mfold)
+            ex2 = Executor()
+            captured = {}
+
+            def hook(e, fref, a, kw, ctx):
+                if isinstance(fref, FuncRef) and fref.qualname == 'intersect_masks':
+                    captured['args'] = a
+                    t = Tm('IM')
+                    t.attrs['__items__'] = [Tm('model_i'), Tm('data_i')]
+                    t.attrs['__len__'] = 2
+                    return t
+                return NotImplemented
+            ex2.abstract_hook = hook
+            p = ex2.run(ex2.func('dadi/Inference.py', 'optimal_sfs_scaling'), [model, data])
+            tag = 'data%s.model%s' % ('F' if dfold else 'U', 'F' if mfold else 'U')
+            M = 'call:attr:fold(model)' if (dfold and not mfold) else 'model'
+            ok = len(p) == 1 and p[0].outcome == 'return' and vrepr(p[0].value) == 'op:Div(call:attr:sum(data_i), call:attr:sum(model_i))' \
+                and 'args' in captured and vrepr(captured['args'][0]) == M and captured['args'][1] is data
+            out.append(struct('C11/Inference.py:optimal_sfs_scaling/%s' % tag, bool(ok), 'sum(data\')/sum(model\') with (model\', data\') = intersect_masks(%s, data): %s' % (M, vrepr(p[0].value)[:100] if p else p),
+                              'dadi/Inference.py::optimal_sfs_scaling', finding_key='C11/optimal_sfs_scaling/formula'))
+    except Unsupported as e:
+        out.append(R('C11/Inference.py:ll/wiring', 'proof', 'undecided', detail=str(e), func=fn))
+    return out
+
+
+def c11_residuals():
+    """linear_Poisson_residual = (model - data)/sqrt(model) (positive where the model exceeds the data), masked where both <= mask"""
+    oid = 'C11/Inference.py:linear_Poisson_residual'
+    fn = 'dadi/Inference.py::linear_Poisson_residual'
+
+    @guarded(oid, fn)
+    def go():
+        out = []
+        ex = Executor()
+        f = ex.func('dadi/Inference.py', 'linear_Poisson_residual')
+        data, model = _spectra(False, False)
+        p = ex.run(f, [model, data])
+        s = vrepr(p[0].value) if len(p) == 1 and p[0].outcome == 'return' else repr(p)
+        ok = s in ('op:Div(op:Sub(model, data), call:attr:sqrt(lib:numpy.ma)(model))', 'op:Div(op:Sub(model, data), call:numpy.sqrt(model))')
+        out.append(struct(oid + '.formula', ok, '(model - data)/numpy.ma.sqrt(model): %s' % s[:120], fn, finding_key='C11/linear_residual/formula'))
+        p = ex.run(f, [model, data], dict(mask=z3.Real('cut')))
+        s = vrepr(p[0].value) if len(p) == 1 and p[0].outcome == 'return' else repr(p)
+        ok = 'masked_where' in s and 'logical_and(cmp:LtE(model, cut), cmp:LtE(data, cut))' in s.replace('call:lib:numpy.', '').replace('call:attr:', '').replace('(lib:numpy)', '')
+        out.append(struct(oid + '.mask', ok, 'masked where model <= mask and data <= mask: %s' % s[:200], fn))
+        data, model = _spectra(True, False)
+        p = ex.run(f, [model, data])
+        s = vrepr(p[0].value) if len(p) == 1 and p[0].outcome == 'return' else repr(p)
+        out.append(struct(oid + '.autofold', s.startswith('op:Div(op:Sub(call:attr:fold(model), data)'), 'model folded against folded data: %s' % s[:100], fn))
+        return out
+    return go()
